@@ -125,6 +125,12 @@ func evalC18(t *testing.T, c *Case, st *Stats, relax Relax) *Violation {
 			if err != nil || !bytes.Equal(got, msg) {
 				return mk("decrypt-differs", fmt.Sprintf("stream: err=%v %s != %s", err, sumOf(got), sumOf(msg)))
 			}
+			// a decrypted stream that has ended stays ended (decompressors probe the end more than once)
+			for i := 0; i < 3; i++ {
+				if n, err := rd.Read(make([]byte, 16)); n != 0 || err != io.EOF {
+					return mk("decrypt-fails", fmt.Sprintf("read #%d after the end of the decrypted stream: n=%d err=%v, want 0, EOF", i+1, n, err))
+				}
+			}
 			heartbeat()
 			// wrong password
 			if wid, err := keys.ParseIdentity(format, priv, wrong); err == nil {
